@@ -1,0 +1,18 @@
+//go:build verif
+
+// Verification hook (build tag "verif"): non-blocking drain of the command queue.
+
+package nfdc
+
+// VerifDrain removes and returns every management command currently queued.
+func (m *NfdMgmtThread) VerifDrain() []NfdMgmtCmd {
+	var out []NfdMgmtCmd
+	for {
+		select {
+		case cmd := <-m.channel:
+			out = append(out, cmd)
+		default:
+			return out
+		}
+	}
+}
